@@ -18,7 +18,6 @@ structure Spec where
   att : List Nat := []
   reqs : List (Nat × Nat) := []
   err : Option String := none
-  known : Option String := none
 
 def Spec.fail (sp : Spec) (m : String) : Spec := if sp.err.isSome then sp else { sp with err := some m }
 
@@ -72,7 +71,7 @@ def specTok (isTick : Bool) (sp : Spec) (t : String) : Spec :=
 
 /-- `m` = the MODEL state before the op (only used to decide the class of the known finding) -/
 def specOp (sp : Spec) (m : State) (o : Drv.Op) (impl : String) : Spec :=
-  let sp := { sp with err := none, known := none }
+  let sp := { sp with err := none }
   let toks := Drv.implToks impl
   let isTick := match o with | .tick => true | _ => false
   match o with
@@ -93,25 +92,33 @@ def specOp (sp : Spec) (m : State) (o : Drv.Op) (impl : String) : Spec :=
           && !attBefore.isEmpty then
         sp.fail s!"on-demand source stopped by the close timer although readers {attBefore} are attached"
       else sp
-    -- a request that stays on hold must have a start timer running
+    -- a request that stays on hold needs the on-demand source / command to be running (start on demand)
     let sp := match newRid with
       | some rid =>
-        if onDemandStart && sp.open_.contains rid && !sp.armed && !sp.closed then
-          let msg := s!"request {rid} is held but no start-timeout timer is running"
-          let cls := !m.closed && !m.stream.isSome && !m.conf.odStatic && m.conf.odPub &&
-                     (m.odPub == .ready || m.odPub == .closing)
-          if cls then { sp with known := some msg } else sp.fail msg
+        if onDemandStart && sp.open_.contains rid && !sp.srcOn && !sp.demOn && !sp.closed then
+          sp.fail s!"request {rid} is held but neither an on-demand source nor runOnDemand is running"
         else sp
       | none => sp
+    -- bounded wait: a held request always has a start-timeout timer running, so once the fake clock has
+    -- been run to the next expiry (`tick`) nothing can still be on hold: the start timeout answers every
+    -- held request, and a close timer never runs while requests are held.  (Former known finding F-C19
+    -- `hold-no-timer`, fixed upstream in 316e99c: the close timer stopped runOnDemand and left them waiting.)
+    let sp :=
+      if isTick && !sp.open_.isEmpty && !sp.closed then
+        if toks.contains "h-demand" || toks.contains "src-" then
+          sp.fail s!"regression of F-C19 (hold-no-timer): on-demand stopped by the close timer while requests {sp.open_} are on hold"
+        else if impl.startsWith "none" then
+          sp.fail s!"regression of F-C19 (hold-no-timer): requests {sp.open_} are on hold but no timer is running"
+        else sp.fail s!"a timer expired but requests {sp.open_} are still on hold"
+      else sp
     -- when the path has closed nothing may stay unanswered
     if sp.closed && !sp.open_.isEmpty then
       sp.fail s!"path closed but requests {sp.open_} were never answered"
     else sp
 
 def Spec.verdict (sp : Spec) : String :=
-  match sp.err, sp.known with
-  | some m, _ => "FAIL " ++ m
-  | none, some m => "KNOWN hold-no-timer " ++ m
-  | none, none => "ok"
+  match sp.err with
+  | some m => "FAIL " ++ m
+  | none => "ok"
 
 end MtxVerif.C19
